@@ -53,6 +53,23 @@ class CutoffSuite(Suite):
                     yield {"peps": list(p), "level": lv}
         yield {"peps": [], "level": "1/100"}
         yield {"peps": ["nan"], "level": "1/100"}
+        # exact ties: some prefix of the sorted PEPs has a mean EQUAL to the level (the crossing must be strict)
+        for _ in range(core.tier_n(tier, 200, 3000)):
+            lv = Fraction(rng.randint(0, 1 << (LEVEL_BITS - 2)) * 2, 1 << LEVEL_BITS)
+            k = rng.randint(1, 4)
+            style = rng.random()
+            if style < 0.35:
+                peps = [lv] * k                                   # duplicates sitting on the level
+            elif style < 0.7:
+                d = Fraction(rng.randint(0, int(lv * D)), D) if lv > 0 else Fraction(0)
+                peps = [lv - d, lv + d]                           # a symmetric pair
+            else:
+                peps = [Fraction(0)] * (k - 1) + [lv * k]         # zeros, then one PEP lifting the mean exactly to the level
+            peps = [x for x in peps if 0 <= x <= 1]
+            peps += [Fraction(rng.randint(int(max(peps + [lv]) * D), D), D) for _ in range(rng.randint(0, 3))]
+            peps = [str(x) for x in peps] + (["nan"] if rng.random() < 0.2 else [])
+            rng.shuffle(peps)
+            yield {"peps": peps, "level": str(lv)}
         for _ in range(n_random):
             n = rng.choice([0, 1, 2, 3, 5, 8, 13, 30, 60]) if rng.random() < 0.9 else rng.randint(100, 600)
             style = rng.random()
